@@ -779,21 +779,52 @@ fn has_nested_ext(t: &T) -> bool {
     here || t.kids().iter().any(|k| has_nested_ext(k))
 }
 
-fn rt_check(t: &T, order: u64, rep: &Report) -> bool {
-    let (f, changed) = rt_once(t);
-    if f.is_some() {
-        let min = shrink(t, &|s| in_fragment(s, true) && rt_once(s).0.is_some());
-        let (kind, what) = rt_once(&min).0.unwrap_or_else(|| rt_once(t).0.unwrap());
-        // one defect, one signature: an extension-of-extension operand is classified by the two
-        // extension kinds (outer(inner)), everything else by the operator shape
-        let (shape, detail) = match nested_ext_kind(&min) {
-            Some(k) => (k, "nested-ext"),
-            None => (sig_shape(&min), ""),
-        };
-        let sig = format!("C19|{kind}|{shape}|{}|{detail}", wclass(operand_width(&min)));
-        rep.violation(Violation { sig, what, case: json!({"kind": "roundtrip", "term": min.to_string(), "found_in": t.to_string()}), order });
+/// operator-independent shape of a round-trip term: op(kinds of the operands)
+fn rt_shape(t: &T) -> String {
+    fn kind(t: &T) -> String {
+        match t {
+            T::Sym(..) => "sym".into(),
+            T::ZExt(_, k) | T::SExt(_, k) => {
+                if k.is_leaf() {
+                    t.op_name().to_string()
+                } else {
+                    format!("{}({})", t.op_name(), kind(k))
+                }
+            }
+            T::Bin(..) => "op".into(),
+            o => o.op_name().to_string(),
+        }
     }
-    changed
+    format!("op({})", t.kids().iter().map(|k| kind(k)).collect::<Vec<_>>().join(","))
+}
+
+/// shrink a failing round-trip term inside the fragment and report it
+fn rt_report(t: &T, kind0: &str, order: u64, rep: &Report) {
+    let same = |s: &T| in_fragment(s, true) && matches!(rt_once(s).0, Some((k, _)) if k == kind0);
+    let min = shrink(t, &same);
+    let (kind, what) = rt_once(&min).0.unwrap_or_else(|| rt_once(t).0.unwrap());
+    // one defect, one signature: an extension-of-extension operand is classified by the two
+    // extension kinds (outer(inner)), everything else by the operator-independent shape
+    let (shape, detail) = match nested_ext_kind(&min) {
+        Some(k) => (k, "nested-ext"),
+        None => (rt_shape(&min), ""),
+    };
+    let sig = format!("C19|{kind}|{shape}|{}|{detail}", wclass(operand_width(&min)));
+    rep.violation(Violation { sig, what, case: json!({"kind": "roundtrip", "term": min.to_string(), "found_in": t.to_string()}), order });
+}
+
+/// failing round-trip terms per kind: the RT_SHRINK smallest in enumeration order
+type RtFailures = BTreeMap<String, Vec<(u64, T)>>;
+const RT_SHRINK: usize = 16;
+
+fn rt_note(f: &mut RtFailures, kind: String, order: u64, t: &T) {
+    let v = f.entry(kind).or_default();
+    if v.len() >= RT_SHRINK && order >= v[v.len() - 1].0 {
+        return;
+    }
+    let pos = v.partition_point(|x| x.0 < order);
+    v.insert(pos, (order, t.clone()));
+    v.truncate(RT_SHRINK);
 }
 
 fn run_roundtrip(rep: &Report, budget: &Budget) {
@@ -811,6 +842,7 @@ fn run_roundtrip(rep: &Report, budget: &Budget) {
     }
     let stop = AtomicBool::new(false);
     let base = 1u64 << 40;
+    let failures: std::sync::Mutex<RtFailures> = std::sync::Mutex::new(RtFailures::new());
     chunks.par_iter().enumerate().for_each(|(ci, ch)| {
         if stop.load(Ordering::Relaxed) {
             return;
@@ -822,9 +854,16 @@ fn run_roundtrip(rep: &Report, budget: &Budget) {
         let terms = rt_chunk_terms(ch);
         let mut c: BTreeMap<String, u64> = BTreeMap::new();
         let mut hs = vec![];
+        let mut bad: Vec<(String, String, u64, T)> = vec![];
         for (ti, t) in terms.iter().enumerate() {
             let order = base + ((ci as u64) << 16) + ti as u64;
-            let changed = rt_check(t, order, rep);
+            let (f, changed) = rt_once(t);
+            if let Some((kind, _)) = f {
+                // nested extensions are a class of their own (kept apart so that they cannot mask others)
+                let key = if has_nested_ext(t) { format!("{kind}|nested-ext") } else { kind.clone() };
+                *c.entry(format!("roundtrip_failing:{key}")).or_default() += 1;
+                bad.push((key, kind, order, t.clone()));
+            }
             hs.push(hash64(&t.to_string()));
             *c.entry("evaluations".into()).or_default() += 1;
             *c.entry("roundtrip_terms".into()).or_default() += 1;
@@ -842,7 +881,17 @@ fn run_roundtrip(rep: &Report, budget: &Budget) {
         }
         rep.merge_counts(&c);
         rep.distinct_hashes(&hs);
+        if !bad.is_empty() {
+            let mut f = failures.lock().unwrap();
+            for (key, kind, order, t) in bad {
+                rt_note(&mut f, format!("{key}\u{1}{kind}"), order, &t);
+            }
+        }
     });
+    // deterministic reporting: the smallest failing terms per kind are shrunk
+    let f = failures.into_inner().unwrap();
+    let todo: Vec<(String, u64, T)> = f.into_iter().flat_map(|(k, v)| v.into_iter().map(move |(o, t)| (k.split('\u{1}').nth(1).unwrap().to_string(), o, t))).collect();
+    todo.par_iter().for_each(|(kind, order, t)| rt_report(t, kind, *order, rep));
     if stop.load(Ordering::Relaxed) {
         rep.cap_hit("budget: round-trip sweep not completed");
     } else {
@@ -878,7 +927,9 @@ pub fn replay(case: &Value, rep: &Report) {
     match case["kind"].as_str() {
         Some("roundtrip") => {
             let t = parse_t(case["term"].as_str().expect("term")).expect("parse term");
-            let _ = rt_check(&t, 0, rep);
+            if let (Some((kind, _)), _) = rt_once(&t) {
+                rt_report(&t, &kind, 0, rep);
+            }
         }
         Some("rule") => {
             let name = case["rule"].as_str().expect("rule");
